@@ -115,7 +115,9 @@ def gen_inputs(fmt, rng, nrand, rich=True):
         elif k < 0.85:      # any double at all
             cand.append(struct.unpack(">d", struct.pack(">Q", rng.getrandbits(64)))[0])
         else:               # log-uniform magnitude around the range end
-            cand.append(rng.choice((1, -1)) * math.ldexp(rng.random() + 0.5, nb - f + rng.randint(-6, 6)))
+            ex = nb - f + rng.randint(-6, 6)
+            if ex < 1020:   # (a far negative n_frac puts the range end beyond the doubles)
+                cand.append(rng.choice((1, -1)) * math.ldexp(rng.random() + 0.5, ex))
     seen, out = set(), []
     for x in cand:
         if isinstance(x, float) and in_domain(x, f) and bits_key(x) not in seen:
@@ -182,15 +184,57 @@ def make_fix(fmt, fn):
 
 
 def laid_out(arr, rng):
-    """the same array (shape and elements) in another memory layout: Fortran order, or a strided view"""
-    k = rng.randrange(4)
+    """the same array (shape and elements) in another memory layout: Fortran order, a strided view, a view with
+    negative strides, the other byte order; one in three is handed over read-only"""
+    k = rng.randrange(6)
     if arr.ndim >= 2 and k == 0:
-        return np.asfortranarray(arr)
-    if arr.ndim >= 2 and k == 1:
-        return np.ascontiguousarray(arr.swapaxes(0, arr.ndim - 1)).swapaxes(0, arr.ndim - 1)
-    if arr.ndim >= 1 and k == 2 and arr.size:
-        return np.repeat(arr, 2, axis=arr.ndim - 1)[..., ::2]
+        arr = np.asfortranarray(arr)
+    elif arr.ndim >= 2 and k == 1:
+        arr = np.ascontiguousarray(arr.swapaxes(0, arr.ndim - 1)).swapaxes(0, arr.ndim - 1)
+    elif arr.ndim >= 1 and k == 2 and arr.size:
+        arr = np.repeat(arr, 2, axis=arr.ndim - 1)[..., ::2]
+    elif arr.ndim >= 1 and k == 3 and arr.size:
+        arr = np.ascontiguousarray(arr[..., ::-1])[..., ::-1]
+    elif k == 4:
+        arr = arr.astype(arr.dtype.newbyteorder())
+    if rng.randrange(3) == 0:
+        arr = arr.view()
+        arr.flags.writeable = False
     return arr
+
+
+def shape_str(shape):
+    return "x".join(str(int(d)) for d in shape) or "scalar"
+
+
+EMPTY_SHAPES = [(0,), (0, 3), (2, 0), (2, 0, 2)]
+
+
+def shape_events(conv, kind, dtype, rng):
+    """arrays without elements: what comes back must have the shape that went in"""
+    evs = []
+    for shape in EMPTY_SHAPES:
+        arr = np.zeros(shape, dtype=dtype)
+        try:
+            got = shape_str(np.shape(conv(laid_out(arr, rng))))
+        except Exception as ex:
+            got = "raised " + type(ex).__name__
+        evs.append(["npshape", kind, shape_str(shape), got])
+    return evs
+
+
+def klass(fmt, x):
+    """where the scaled value lies: -1 below the range, 1 above it, 0 inside (for choosing sub-arrays)"""
+    s, n, f = fmt
+    q = Fraction(x) * Fraction(2) ** f
+    lo = -(2 ** (n - 1)) if s else 0
+    hi = 2 ** (n - 1) - 1 if s else 2 ** n - 1
+    return -1 if q <= lo - 1 else 1 if q >= hi + 1 else 0
+
+
+def safe32(x, f):
+    """the scaled value is a finite single-precision number too"""
+    return -126 <= f <= 127 and abs(x) * 2.0 ** f < 2.0 ** 127
 
 
 def array_call(conv, arr):
@@ -203,14 +247,15 @@ def array_call(conv, arr):
         return [("e", type(ex).__name__)] * arr.size, None
 
 
-def conv_traces(fmt, xs, rng, label, isolate=True, apis=("np", "fix")):
+def conv_traces(fmt, xs, rng, label, isolate=True, apis=("np", "fix"), shapes=False, plain=False):
     """float -> fixed: scalar, array element and deprecated word for every input, inputs ascending"""
     s, n, f = fmt
     nb = n - 1 if s else n
     # one trace in four is made of single-precision inputs: the array converter is given a float32 array, the scalar
     # conversions the same values (every float32 is a double); values beyond float32's range are left out
+    # (only where 2^n_frac is itself a single-precision number)
     adt = np.float64
-    if (s, n) in DTYPES and "np" in apis and rng.random() < 0.25:
+    if (s, n) in DTYPES and "np" in apis and -126 <= f <= 127 and rng.random() < 0.25:
         with np.errstate(over="ignore"):
             xs32 = [float(np.float32(x)) for x in xs]
         xs32 = sorted(set(x for x in xs32 if x == x and abs(x) != float("inf")))
@@ -218,37 +263,71 @@ def conv_traces(fmt, xs, rng, label, isolate=True, apis=("np", "fix")):
             xs, adt, label = xs32, np.float32, label + "/float32"
     xs = sorted(xs)
     fp = float_to_fp(bool(s), n, f)
-    rfp = [call(fp, x) for x in xs]
     shape = shape_for(len(xs), rng)
     has_np = (s, n) in DTYPES          # the widths the array converters support; other widths: scalars only
     if not has_np:
         apis = tuple(a for a in apis if a != "np")
     conv = NumpyFloatToFixConverter(bool(s), n, f) if has_np else None
-    rnp = array_call(conv, laid_out(np.array(xs, dtype=adt).reshape(shape), rng))[0] if has_np else None
     fx = make_fix(fmt, float_to_fix)
+    # other converters made (and used) after these and before these are used: one of the other signedness, another
+    # width and another number of fractional bits of each kind
+    call(lambda: float_to_fp(not s, 24 - n % 16, f + 1)(-1.5))
+    call(lambda: NumpyFloatToFixConverter(not s, 16 if n != 16 else 32, f + 3)(np.array([-1.5, 1e9])))
+    call(lambda: float_to_fix(not s, n + 8, 0)(-1.5))
+    rfp = [call(fp, x) for x in xs]
+    given = laid_out(np.array(xs, dtype=adt).reshape(shape), rng)
+    rnp = array_call(conv, given)[0] if has_np else None
     rfx = [call(fx, x) for x in xs] if fx else None
     X = [enc_dbl(x) for x in xs]
-    # 0-d arrays and NumPy scalars for a few elements
-    extra = {}
-    for i in rng.sample(range(len(xs)), min(3, len(xs)) if has_np else 0):
-        r0, _ = array_call(conv, np.array(xs[i], dtype=adt))
-        try:
-            r1 = ("v", int(conv(adt(xs[i]))))
-        except Exception as ex:
-            r1 = ("e", type(ex).__name__)
-        extra[i] = [r0[0], r1]
+    extra = {}      # index -> results of further array calls holding that input
+    extra_fp = {}   # index -> results of further scalar calls (NumPy scalars as the argument)
+    if has_np and not plain:
+        # the same array object handed to the converter a second time (a few of its elements are recorded)
+        again = array_call(conv, given)[0]
+        for i in sorted(set([0, len(xs) - 1] + rng.sample(range(len(xs)), min(3, len(xs))))):
+            extra.setdefault(i, []).append(again[i])
+        # 0-d arrays and NumPy scalars for a few elements
+        for i in rng.sample(range(len(xs)), min(3, len(xs))):
+            r0, _ = array_call(conv, np.array(xs[i], dtype=adt))
+            try:
+                r1 = ("v", int(conv(adt(xs[i]))))
+            except Exception as ex:
+                r1 = ("e", type(ex).__name__)
+            extra.setdefault(i, []).extend([r0[0], r1])
+        # small arrays of one kind of element only: all inside the range, all below it, all above it, one element,
+        # negative ones only (the large array always holds every kind at once)
+        kl = [klass(fmt, x) for x in xs]
+        groups = [[i for i in range(len(xs)) if kl[i] == k] for k in (0, -1, 1)]
+        groups.append([i for i in range(len(xs)) if kl[i] == 0 and xs[i] < 0])
+        groups.append([i for i in range(len(xs)) if kl[i] <= 0 and xs[i] != 0])
+        subs = [sorted(rng.sample(g, min(len(g), rng.choice((2, 3, 4))))) for g in groups if g]
+        subs += [[rng.choice(g)] for g in groups[:3] if g]
+        for idx in subs:
+            sub = np.array([xs[i] for i in idx], dtype=adt)
+            if len(idx) == 4 and rng.random() < 0.5:
+                sub = sub.reshape(2, 2)
+            res = array_call(conv, laid_out(sub, rng))[0]
+            for i, r in zip(idx, res):
+                extra.setdefault(i, []).append(r)
+    # NumPy scalars as the argument of the scalar converter
+    for i in rng.sample(range(len(xs)), 0 if plain else min(3, len(xs))):
+        extra_fp.setdefault(i, []).append(call(fp, np.float64(xs[i])))
+        if adt is np.float32 and safe32(xs[i], f):
+            extra_fp[i].append(call(fp, np.float32(xs[i])))
 
-    def build(idx, apis, lab):
+    def build(idx, apis, lab, more=()):
         evs = []
         for i in idx:
             push(evs, "fp", [X[i]], rfp[i])
+            for r in extra_fp.get(i, ()):
+                push(evs, "fp", [X[i]], r)
             if "np" in apis:
                 push(evs, "np", [X[i]], rnp[i])
                 for r in extra.get(i, ()):
                     push(evs, "np", [X[i]], r)
             if "fix" in apis and fx:
                 push(evs, "fix", [X[i]], rfx[i])
-        return close(fmt, evs, fx, lab, shape=list(shape))
+        return close(fmt, evs + list(more), fx, lab, shape=list(shape))
 
     # formats wider than a double's mantissa (64-bit: 2^63 signed / 2^64 unsigned): inputs whose scaled value reaches
     # the top of the range are recorded in traces of their own, one per variant, so that a rejection there cannot
@@ -258,6 +337,8 @@ def conv_traces(fmt, xs, rng, label, isolate=True, apis=("np", "fix")):
     # pieces of CHUNK inputs (independent chains for TLC's workers); each piece starts with the last input of the
     # one before, so that every pair of neighbouring inputs is compared by the Monotone clauses
     out = [build(main[max(a - 1, 0):a + CHUNK], apis, label) for a in range(0, len(main), CHUNK)]
+    if shapes and has_np and "np" in apis:
+        out.append(build([], apis, label + "/empty", more=shape_events(conv, "to_fix", adt, rng)))
     for i in far:
         pre = main[-1:] if main else []
         if "np" in apis:
@@ -267,32 +348,73 @@ def conv_traces(fmt, xs, rng, label, isolate=True, apis=("np", "fix")):
     return out
 
 
-def inv_traces(fmt, vs, label, isolate=True, apis=("np", "fix")):
+def wider(s, n, rng):
+    """an integer type that holds every value of the format and is not the format's own"""
+    opts = [t for (ts, tn), t in DTYPES.items() if tn > n and (ts == s or (ts == 1 and s == 0))]
+    return rng.choice(opts) if opts else None
+
+
+def inv_traces(fmt, vs, label, isolate=True, apis=("np", "fix"), rng=None, shapes=False):
     """fixed -> float -> fixed: scalar, arrays, deprecated word functions"""
     s, n, f = fmt
     nb = n - 1 if s else n
+    rng = rng or random.Random(len(vs) * 1000 + n + f)
     to_f = fp_to_float(f)
     back = float_to_fp(bool(s), n, f)
+    has_np = (s, n) in DTYPES
+    if has_np:
+        to_f_np = NumpyFixToFloatConverter(f)
+        back_np = NumpyFloatToFixConverter(bool(s), n, f)
+    kb = make_fix(fmt, fix_to_float)
+    bt = make_fix(fmt, float_to_fix)
+    # other converters made (and used) after these and before these are used
+    call(lambda: fp_to_float(f + 2)(3))
+    call(lambda: NumpyFixToFloatConverter(f + 1)(np.array([3, -3], dtype=np.int16)))
+    call(lambda: fix_to_float(not s, n + 8, 1)(5))
     sc = []
     for v in vs:
         r = call(to_f, v)
         sc.append((r, call(back, r[1]) if r[0] == "v" else r))
-    if (s, n) in DTYPES:
-        arr = np.array(vs, dtype=DTYPES[(s, n)])
-        fl, fl_arr = array_call(NumpyFixToFloatConverter(f), arr)
+    more = {}       # index -> further (float, back) pairs from other array calls holding that value
+    if has_np:
+        # the array in a seeded shape of 1-3 dimensions and memory layout
+        arr = laid_out(np.array(vs, dtype=DTYPES[(s, n)]).reshape(shape_for(len(vs), rng)), rng)
+        fl, fl_arr = array_call(to_f_np, arr)
         if fl_arr is not None:
             # (back through the array converter in another shape and memory layout; the flattened order is the same)
+            fl_arr = fl_arr.reshape(-1)
             if fl_arr.size >= 4 and fl_arr.size % 2 == 0:
                 fl_arr = np.asfortranarray(fl_arr.reshape(2, fl_arr.size // 2))
             elif fl_arr.size:
                 fl_arr = np.repeat(fl_arr, 2)[::2]
-            bk, _ = array_call(NumpyFloatToFixConverter(bool(s), n, f), fl_arr)
+            bk, _ = array_call(back_np, fl_arr)
         else:
             bk = fl
+
+        def both(idx, arr2):
+            f2, f2_arr = array_call(to_f_np, arr2)
+            b2 = array_call(back_np, f2_arr)[0] if f2_arr is not None else f2
+            for i, p, q in zip(idx, f2, b2):
+                more.setdefault(i, []).append((p, q))
+
+        # the same values in a wider integer type, as a 0-d array, as a NumPy scalar; the same array object again
+        wd = wider(s, n, rng)
+        if wd is not None:
+            idx = sorted(rng.sample(range(len(vs)), min(len(vs), 6)))
+            arr2 = np.array([vs[i] for i in idx], dtype=wd)
+            both(idx, laid_out(arr2.reshape(2, 3) if len(idx) == 6 else arr2, rng))
+        for i in rng.sample(range(len(vs)), min(len(vs), 2)):
+            both([i], np.array(vs[i], dtype=DTYPES[(s, n)]))
+            p = call(to_f_np, DTYPES[(s, n)](vs[i]))
+            p = ("v", float(p[1])) if p[0] == "v" and np.shape(p[1]) == () else p if p[0] == "e" else ("e", "ShapeChanged")
+            q = array_call(back_np, np.array(p[1]))[0][0] if p[0] == "v" else p
+            more.setdefault(i, []).append((p, q))
+        idx = sorted(set([0, len(vs) - 1] + rng.sample(range(len(vs)), min(len(vs), 2))))
+        again = array_call(to_f_np, arr)[0]
+        for i in idx:
+            more.setdefault(i, []).append((again[i], bk[i]))
     else:
         apis = tuple(a for a in apis if a != "np")
-    kb = make_fix(fmt, fix_to_float)
-    bt = make_fix(fmt, float_to_fix)
     mask = (1 << n) - 1
     dp = []
     if kb and bt:
@@ -300,7 +422,7 @@ def inv_traces(fmt, vs, label, isolate=True, apis=("np", "fix")):
             r = call(kb, v & mask)
             dp.append((r, call(bt, r[1]) if r[0] == "v" else r))
 
-    def build(idx, apis, lab):
+    def build(idx, apis, lab, extra_ev=()):
         evs = []
         for i in idx:
             V = enc_int(vs[i])
@@ -310,21 +432,24 @@ def inv_traces(fmt, vs, label, isolate=True, apis=("np", "fix")):
                 continue
             evs.append(["inv_fp", V, enc_dbl(rx[1]), enc_int(rb[1])])
             if "np" in apis:
-                if fl[i][0] == "e" or bk[i][0] == "e":
-                    evs.append(["raise", "inv_np", V, fl[i][1] if fl[i][0] == "e" else bk[i][1]])
-                else:
-                    evs.append(["inv_np", V, enc_dbl(fl[i][1]), enc_int(bk[i][1])])
+                for (p, q) in [(fl[i], bk[i])] + more.get(i, []):
+                    if p[0] == "e" or q[0] == "e":
+                        evs.append(["raise", "inv_np", V, p[1] if p[0] == "e" else q[1]])
+                    else:
+                        evs.append(["inv_np", V, enc_dbl(p[1]), enc_int(q[1])])
             if "fix" in apis and dp:
                 (dx, db) = dp[i]
                 if dx[0] == "e" or db[0] == "e":
                     evs.append(["raise", "inv_fix", V, dx[1] if dx[0] == "e" else db[1]])
                 else:
                     evs.append(["inv_fix", V, enc_int(vs[i] & mask), enc_dbl(dx[1]), enc_int(db[1])])
-        return close(fmt, evs, bool(dp), lab)
+        return close(fmt, evs + list(extra_ev), bool(dp), lab)
 
     far = [i for i, v in enumerate(vs) if isolate and nb >= 54 and v > 0 and float(v) >= 2.0 ** nb]
     main = [i for i in range(len(vs)) if i not in set(far)]
     out = [build(main[a:a + CHUNK], apis, label) for a in range(0, len(main), CHUNK)]
+    if shapes and has_np and "np" in apis:
+        out.append(build([], apis, label + "/empty", extra_ev=shape_events(to_f_np, "to_float", DTYPES[(s, n)], rng)))
     for i in far:
         if "np" in apis:
             out.append(build([i], ("np",), label + "/top/np"))
@@ -349,6 +474,16 @@ def formats(chk, rng):
             # array converters take any integer; the deprecated variants refuse)
             if n <= 32:
                 out += [(s, n, f) for f in (-1, -2, -5)]
+            else:
+                out += [(s, n, f) for f in chk.pick((-1, -5), (-1, -2, -5, -11))]
+    # "any number of fractional bits", to its far ends: scales beyond single precision (2^128 and more), close to
+    # the largest and the smallest double; n_frac + n_bits stays below 1024 so that every value of the format is
+    # still a finite double on the way back
+    far = [(1, 64, 130), (0, 32, 300), (1, 16, 1000), (0, 8, 128), (0, 64, 200), (1, 32, -100), (0, 64, -900),
+           (1, 8, -40), (0, 16, -150)]
+    if not chk.quick:
+        far += [(s, n, f) for s in (1, 0) for n in (8, 16, 32, 64) for f in (69, 127, 128, 500, 1010, -20, -127, -200)]
+    out += sorted(set(far))
     # widths only the scalar functions support (no array events): below, at and beyond a double's 53 bits
     for n in chk.pick((12, 24, 48, 60), (9, 12, 20, 24, 31, 33, 40, 48, 53, 60)):
         for s in (1, 0):
@@ -370,6 +505,8 @@ def key_of(tr, i, clauses):
     e = tr["ev"][i - 1]
     s, n, f = tr["fmt"]
     nb = n - 1 if s else n
+    if e[0] == "npshape":
+        return "npshape %s %s shape=%s got=%s" % (e[1], ",".join(clauses), e[2], e[3])
     api = e[1] if e[0] == "raise" else e[0]
     variant = {"np": "numpy", "inv_np": "numpy", "fix": "float_to_fix", "inv_fix": "float_to_fix"}.get(api)
     fl = {"np": 1, "fix": 1, "inv_np": 2, "inv_fix": 3}.get(e[0])
@@ -391,7 +528,10 @@ def replay(chk, rng):
     fmt = tuple(tr["fmt"])
     apis = ("np",) if tr["label"].endswith("/np") else ("fix",) if tr["label"].endswith("/fix") else ("np", "fix")
     xs, vs = [], []
+    shapes = any(e[0] == "npshape" for e in tr["ev"])
     for e in tr["ev"]:
+        if e[0] in ("npshape", "ok"):
+            continue
         kind = e[1] if e[0] == "raise" else e[0]
         arg = e[2] if e[0] == "raise" else e[1] if len(e) > 1 else None
         x = math.copysign(float(dec_dbl(arg)), -1 if arg[0] else 1) if kind in ("fp", "np", "fix") else None
@@ -400,7 +540,10 @@ def replay(chk, rng):
         elif kind.startswith("inv") and int(dec_dbl(arg + [0])) not in vs:
             vs.append(int(dec_dbl(arg + [0])))
     traces = (conv_traces(fmt, xs, rng, "replay", isolate=False, apis=apis) if xs else []) + \
-             (inv_traces(fmt, vs, "replay", isolate=False, apis=apis) if vs else [])
+             (inv_traces(fmt, vs, "replay", isolate=False, apis=apis, rng=rng) if vs else [])
+    if shapes:      # a trace of arrays without elements: both converters again
+        traces += conv_traces(fmt, [0.0], rng, "replay", apis=("np",), shapes=True, plain=True)[1:]
+        traces += inv_traces(fmt, [0], "replay", apis=("np",), rng=rng, shapes=True)[1:]
     chk.rule = "replay of %s" % chk.replay_path
     chk.validate("FixedPointTrace", "FixedPointTrace.cfg", traces, key_of=key_of)
 
@@ -417,23 +560,24 @@ def run(chk):
         xs = gen_inputs(fmt, rng, nrand, rich=not chk.quick)
         for x in xs:
             chk.note_case(("conv", fmt, x.hex()), nontrivial=nontrivial(fmt, x))
-        traces += conv_traces(fmt, xs, rng, "ends+random")
+        shapes = rng.random() < 0.34
+        traces += conv_traces(fmt, xs, rng, "ends+random", shapes=shapes)
         vs = gen_values(fmt, rng, chk.pick(12, 150))
         for v in vs:
             chk.note_case(("inv", fmt, v), nontrivial=v not in (0, 1))
-        traces += inv_traces(fmt, vs, "values")
+        traces += inv_traces(fmt, vs, "values", rng=rng, shapes=shapes)
     # small scope: 8-bit formats, every half step across the whole range and beyond it
     small = [(s, 8, f) for s in (1, 0) for f in (chk.pick((0, 4, 7, 8), range(0, 13)))]
     for fmt in small:
         xs = gen_steps(fmt)
         for x in xs:
             chk.note_case(("conv", fmt, x.hex()), nontrivial=nontrivial(fmt, x))
-        traces += conv_traces(fmt, xs, rng, "half-steps")
+        traces += conv_traces(fmt, xs, rng, "half-steps", shapes=True)
         lo, hi = (-128, 127) if fmt[0] else (0, 255)
         vs = list(range(lo, hi + 1))
         for v in vs:
             chk.note_case(("inv", fmt, v), nontrivial=v not in (0, 1))
-        traces += inv_traces(fmt, vs, "all-values")
+        traces += inv_traces(fmt, vs, "all-values", rng=rng, shapes=True)
     chk.extra["small_scope_exhaustive"] = True
     chk.extra["small_scope_domain"] = ("8-bit formats %s: every multiple of half a step from four steps below the range "
                                        "to four steps above it, and every value of the format for the round trip"
@@ -442,6 +586,8 @@ def run(chk):
     chk.count("traces of inputs at or above the top of a format wider than 53 bits (recorded one per trace and variant)",
               sum(1 for t in traces if "/top/" in t["label"]))
     chk.count("events", sum(t["n"] for t in traces))
+    chk.count("arrays without elements (shape events)", sum(1 for t in traces for e in t["ev"] if e[0] == "npshape"))
+    chk.count("formats with n_frac beyond n_bits + 4 or below -5", sum(1 for t in fmts if t[2] > t[1] + 4 and t[2] not in (25, 30, 40) or t[2] < -5))
     chk.rule = ("formats: signed/unsigned x n_bits 8/16/32/64 x n_frac 0..n_bits, n_bits+1, n_bits+4 (quick: a seeded half "
                 "of the n_frac of the 32/64-bit formats), plus scalar-only widths 9..60 with five n_frac each. Inputs per format: +-0, values at, half/quarter a step and one/two "
                 "ulps around 0..3, both ends of the range, 2^n, 2^53; far beyond (1e30, 1e300, the largest double whose scaled "
@@ -450,14 +596,23 @@ def run(chk):
                 "NumpyFloatToFixConverter (one array per format, seeded shape of 1-3 dimensions, plus 0-d arrays and NumPy "
                 "scalars) and float_to_fix (where validate_fp_params accepts the format). Values per format for the other "
                 "direction: both ends, around 0 and powers of two, values needing more than 53 bits, random - through "
-                "fp_to_float/float_to_fp, the two array converters, fix_to_float/float_to_fix. non-trivial conversion = the "
+                "fp_to_float/float_to_fp, the two array converters, fix_to_float/float_to_fix. Added by the coverage audit: "
+                "n_frac at its far ends (128..1000, -40..-900) and negative n_frac for the 64-bit formats; the same array "
+                "object converted twice; read-only, byte-swapped and negatively strided arrays; small arrays holding one "
+                "kind of element only (all inside / all below / all above the range, one element); arrays without elements "
+                "(shape events); NumPy float64/float32 scalars through float_to_fp; the fixed->float array converter on "
+                "arrays of 1-3 dimensions in several layouts, on wider integer types, 0-d arrays and NumPy scalars; other "
+                "converters created and used between creating and using the ones under test. non-trivial conversion = the "
                 "scaled value is not an integer inside the range; distinct = distinct (format, input)")
     chk.exhaustive = False
     chk.assumptions += [
         "the round trip is demanded for values whose magnitude spans at most 53 bits (the others have no double equal to "
         "them; for those only agreement of the variants and exactness of the conversion back are checked)",
         "arrays are float64, one trace in four float32 (the scalar converters get the same values as doubles)",
-        "0 <= n_frac <= n_bits + 4 (and 25, 30, 40 for the 8/16-bit formats); n_bits in {8, 16, 32, 64} (the widths the array converter supports)",
+        "-5 <= n_frac <= n_bits + 4 (and 25, 30, 40 for the 8/16-bit formats) for every format, and nine formats with n_frac "
+        "between -900 and 1000; n_bits in {8, 16, 32, 64} (the widths the array converter supports) plus scalar-only widths",
+        "single-precision inputs (float32 arrays, np.float32 scalars) only where 2^n_frac and the scaled value are finite "
+        "single-precision numbers (-126 <= n_frac <= 127): NumPy 2 keeps such products in single precision",
     ]
     chk.sample(dict(traces[0], ev=traces[0]["ev"][:6] + [["..."]]))
     chk.sample(dict(traces[len(traces) // 2], ev=traces[len(traces) // 2]["ev"][:6] + [["..."]]))
@@ -468,7 +623,8 @@ def run(chk):
 def selftest(chk):
     rng = random.Random(1)
     fmt = (1, 8, 4)
-    good = conv_traces(fmt, [-9.0, -0.53, 0.3, 7.99, 8.0], rng, "selftest")[0]
+    both = conv_traces(fmt, [-9.0, -0.53, 0.3, 7.99, 8.0], rng, "selftest", shapes=True, plain=True)
+    good, empty = both[0], both[1]
     inv = inv_traces(fmt, [-128, -3, 0, 5, 127], "selftest")[0]
 
     def mut(base, f, n=None):
@@ -496,6 +652,9 @@ def selftest(chk):
     cases = [
         (good, None),
         (inv, None),
+        (empty, None),
+        (mut(empty, lambda e: e[1].__setitem__(3, "3")), "ShapePreserved"),
+        (mut(empty, lambda e: e[2].__setitem__(3, "raised ValueError")), "ShapePreserved"),
         (mut(good, lambda e: e[fp2].__setitem__(2, bump(e[fp2][2]))), "TruncTowardZero"),
         (mut(good, lambda e: e[fpl].__setitem__(2, bump(e[fpl][2]))), "Saturates"),
         (mut(good, lambda e: e[fp0].__setitem__(2, enc_int(-129))), "InRange"),
@@ -527,4 +686,4 @@ def selftest(chk):
     for v, want in ((0, [0, []]), (-1, [1, [1]]), (65536, [0, [1, 0]]), (2 ** 64 - 1, [0, [65535] * 4])):
         if enc_int(v) != want:
             msgs.append("enc_int(%r) = %r" % (v, enc_int(v)))
-    return not msgs, "; ".join(msgs) or "%d corrupted traces rejected with the expected clauses" % (len(cases) - 2)
+    return not msgs, "; ".join(msgs) or "%d corrupted traces rejected with the expected clauses" % (len(cases) - 3)
